@@ -28,3 +28,9 @@ static void build_push(void) {      /* a queue that does not contain g_sl: empty
 void h_sq_push(void) { build_push(); mi_span_queue_push(g_sq, g_sl); VC_REACH(); }
 void h_sq_delete(void) { build(); mi_span_queue_delete(g_sq, g_sl); VC_REACH(); }
 void h_sq_delete_absent(void) { build_push(); mi_span_queue_delete(g_sq, g_sl); VC_REACH(); }
+void h_span_remove(void) {
+  g_stld = malloc(sizeof(mi_segments_tld_t)); g_sl = a_slice(); __CPROVER_assume(g_stld != NULL);
+  size_t c = vc_nondet_size("slice_count"); __CPROVER_assume(c >= 1 && c <= MI_SLICES_PER_SEGMENT); g_sl->slice_count = (uint32_t)c;
+  g_bin = mi_slice_bin(c); g_sqdel_n = 0;
+  mi_segment_span_remove_from_queue(g_sl, g_stld); VC_REACH();
+}
